@@ -40,6 +40,12 @@ def main():
     # make sure the implementation under test is /repo's working tree
     sys.path.insert(0, core.REPO)
     try:
+        import probe
+        probe.install()      # memo / hidden-state probes (harness/probe.py): wrappers inside this process only
+    except Exception as e:  # noqa
+        probe = None
+        print(f"note: probes not installed: {type(e).__name__}: {e}")
+    try:
         mod = importlib.import_module(prop.lower())
     except ModuleNotFoundError:
         print(f"no check for {prop}")
@@ -135,15 +141,22 @@ def main():
             prelude_check_e.run_prelude_e(ctx)
             import prelude_check_p
             prelude_check_p.run_prelude_p(ctx)
+            import prelude_check_f
+            prelude_check_f.run_prelude_f(ctx)
             ctx.flush()
         except ImportError:
             ctx.notes.append('prelude_check not available')
+        if probe is not None:
+            probe.enable(ctx)
         mod.run(ctx)
         ctx.flush()
         # defaults / parameter order of the anchored public functions of this property (harness/props/_sig.py)
         import _sig
         _sig.run_sig(ctx, prop)
         ctx.flush()
+        if probe is not None:
+            probe.disable()
+            ctx.notes.append({'probe': probe.summary()})
     except Exception as e:
         # an exception escaping the harness is treated as an infrastructure problem, not as a verdict
         print(f"INFRASTRUCTURE ERROR in harness: {type(e).__name__}: {e}")
